@@ -59,7 +59,7 @@ func run(opts Options, prefix []int, cache map[[2]uint64]int8, body func()) (*Ex
 	}
 	x.mu.Unlock()
 	if atomic.LoadInt32(&x.live) > 0 {
-		timer := time.NewTimer(20 * time.Second)
+		timer := time.NewTimer(180 * time.Second)
 	wait:
 		for atomic.LoadInt32(&x.live) > 0 {
 			select {
